@@ -621,6 +621,8 @@ class AudioSim(AoefSim):
         self.probes.hit(f"C15:{kind}-checked")
         if frac:
             self.probes.hit("C15:spectrogram-fractional-window-or-hop")
+        if kind == "spectrogram" and op["window_samples"] >= 1024:
+            self.probes.hit("C15:spectrogram-window>=1024-samples")
         tentry = reply["coords"]["time"]
         self.axis(kind, "time", tentry, src["first"])
         if kind == "spectrogram":
@@ -756,9 +758,10 @@ def gen_ops(rng, cfg, seed_tag):
         else:
             if rng.random() < 0.5:
                 # any whole number of samples, not only the round ones
-                w = rng.randint(3, max(3, min(max_window, 400)))
+                w = rng.randint(3, max(3, min(max_window, 3000)))
             else:
-                w = rng.choice([w for w in [4, 8, 16, 32, 64, 100, 256, 37, 101, 113, 211]
+                w = rng.choice([w for w in [4, 8, 16, 32, 64, 100, 256, 37, 101, 113, 211,
+                                            1024, 1102, 2205, 1315, 2048]
                                 if w <= max_window] or [4])
             whole = rng.random() < 0.5
             window = w if whole else w + rng.choice([0.5, 0.25, 0.9, 0.001])
@@ -810,7 +813,9 @@ def gen_ops(rng, cfg, seed_tag):
         elif pat == "derived":
             f2, rec_sr = recs[r]
             frames = files[f2][1]
-            length = rng.choice([24, 60, 150, 400])
+            # a clip past the end of a short file is zero-filled to its full
+            # length, so long windows do not need long files
+            length = rng.choice([24, 60, 150, 400, 400, 2500, 6000])
             if rng.random() < 0.7:
                 # a window of known length that often crosses the end of file
                 k0 = max(0, frames - rng.randint(0, length + length // 2))
@@ -951,6 +956,7 @@ CORE_PROBES = {
         "C15:resample-checked",
         "C15:spectrogram-checked",
         "C15:spectrogram-fractional-window-or-hop",
+        "C15:spectrogram-window>=1024-samples",
         "C15:clip-vs-recording-compared",
         "C15:returned-array-modified-in-place",
         "C15:earlier-array-rechecked",
